@@ -25,3 +25,22 @@ int yr_scanner_scan_mem_blocks(YR_SCAN_CONTEXT* scanner, YR_ITER* iterator)
 }
 
 int yr_execute_code_impl(YR_SCAN_CONTEXT* context) { return 0; }
+
+/* R10.5: allocation extent vs reset extent */
+typedef struct YR_RULES { int num_rules; int num_strings; } YR_RULES;
+typedef struct YR_SCANNER { YR_RULES* rules; unsigned long* flags_bits; unsigned long* disabled; } YR_SCANNER;
+void* yr_calloc(size_t n, size_t s);
+void* memset(void*, int, size_t);
+#define BITS(n) (((n) -1) / 64 + 1)
+int create(YR_RULES* rules, YR_SCANNER* new_scanner)
+{
+  new_scanner->rules = rules;
+  new_scanner->flags_bits = (unsigned long*) yr_calloc(sizeof(unsigned long), BITS(rules->num_rules));
+  new_scanner->disabled = (unsigned long*) yr_calloc(sizeof(unsigned long), BITS(rules->num_strings));
+  return 0;
+}
+void clean_matches(YR_SCANNER* scanner)
+{
+  memset(scanner->flags_bits, 0, sizeof(unsigned long) * BITS(scanner->rules->num_rules));
+  memset(scanner->disabled, 0, sizeof(unsigned long) * BITS(scanner->rules->num_rules));
+}
